@@ -237,11 +237,12 @@ m("C01-dirs-reversed", "C01", [(DIRS,
   "\tfor priority, dir := range dirs {\n",
   "\tfor priority := len(dirs) - 1; priority >= 0; priority-- {\n\t\tdir := dirs[priority]\n")], "directories scanned highest priority first: equal handling differs for conflicts recorded earlier")
 m("C01-skip-root", "C01", [(DIRS,
-  "\t\t\t\tif path == dir {\n\t\t\t\t\treturn nil\n\t\t\t\t}\n\t\t\t\treturn filepath.SkipDir",
-  "\t\t\t\tif path == dir || filepath.Dir(path) == dir {\n\t\t\t\t\treturn nil\n\t\t\t\t}\n\t\t\t\treturn filepath.SkipDir")], "first-level sub-directories are descended into")
+  "\t\t\t\tif path == dir {\n\t\t\t\t\tif err != nil {",
+  "\t\t\t\tif path == dir || filepath.Dir(path) == dir {\n\t\t\t\t\tif err != nil {")], "first-level sub-directories are descended into")
 m("C01-spec-before-errcheck", "C01", [(CACHE,
-  "\t\tpath = filepath.Clean(path)\n\t\tif err != nil {\n\t\t\tcollectError(fmt.Errorf(\"failed to load CDI Spec %w\", err), path)\n\t\t\treturn nil\n\t\t}\n\n\t\tvendor := spec.GetVendor()\n\t\tspecs[vendor] = append(specs[vendor], spec)\n",
-  "\t\tpath = filepath.Clean(path)\n\t\tif spec != nil {\n\t\t\tspecs[spec.GetVendor()] = append(specs[spec.GetVendor()], spec)\n\t\t}\n\t\tif err != nil {\n\t\t\tcollectError(fmt.Errorf(\"failed to load CDI Spec %w\", err), path)\n\t\t\treturn nil\n\t\t}\n\n")], "Spec listed before the load error is looked at")
+  "\t\tpath = filepath.Clean(path)\n\t\tif err != nil {\n",
+  "\t\tpath = filepath.Clean(path)\n\t\tif spec != nil {\n\t\t\tspecs[spec.GetVendor()] = append(specs[spec.GetVendor()], spec)\n\t\t}\n\t\tif err != nil {\n"), (CACHE,
+  "\t\tvendor := spec.GetVendor()\n\t\tspecs[vendor] = append(specs[vendor], spec)\n", "")], "Spec listed before the load error is looked at")
 m("C01-conflict-one-path", "C01", [(CACHE,
   "\t\t\t\tname, devPath, oldPath), devPath, oldPath)",
   "\t\t\t\tname, devPath, oldPath), devPath)")], "a conflict is reported for one of the two files only")
@@ -506,8 +507,8 @@ m("C11-update-reports-false", "C11", [(CACHE,
   "\t\t\tw.tracked[dir] = true\n\t\t\tdelete(dirErrors, dir)\n\t\t\tupdate = true\n",
   "\t\t\tw.tracked[dir] = true\n\t\t\tdelete(dirErrors, dir)\n")], "a directory that appeared late is watched but its current content is never loaded")
 m("C11-refreshifrequired-ignores-update", "C11", [(CACHE,
-  "\tif force || (c.autoRefresh && c.watch.update(c.dirErrors)) {",
-  "\tif force {\n\t\treturn true, c.refresh()\n\t}\n\tif c.autoRefresh && len(c.dirErrors) > 0 && c.watch.update(c.dirErrors) {")], "missing directories are only retried while an error is recorded")
+  "\tif force || (c.autoRefresh && (c.watch.update(c.dirErrors) || c.rescan)) {",
+  "\tif force {\n\t\treturn true, c.refresh()\n\t}\n\tif c.autoRefresh && len(c.dirErrors) > 0 && (c.watch.update(c.dirErrors) || c.rescan) {")], "missing directories are only retried while an error is recorded")
 m("C11-filter-write-any-name", "C11", [(CACHE,
   "\t\t\tif event.Op == fsnotify.Write || event.Op == fsnotify.Create {\n\t\t\t\tif ext := filepath.Ext(event.Name); ext != \".json\" && ext != \".yaml\" {",
   "\t\t\tif event.Op == fsnotify.Write || event.Op == fsnotify.Create || event.Op == fsnotify.Rename {\n\t\t\t\tif ext := filepath.Ext(event.Name); ext != \".json\" && ext != \".yaml\" {")], "rename events of directories (no extension) are filtered out")
@@ -676,6 +677,23 @@ def emit():
     print("%d mutants, %d benign, %d do not apply" % (len(M), len(B), bad))
     return bad
 
+
+# ---- D17 (b4f0f36) reverts
+m("C20-revert-D17-rescan-asked", "C20", [(CACHE,
+  "\tif force || (c.autoRefresh && (c.watch.update(c.dirErrors) || c.rescan)) {",
+  "\tif force || (c.autoRefresh && c.watch.update(c.dirErrors)) {")], "revert of D17 (part): a scan cut short by descriptor exhaustion is never repeated")
+m("C20-revert-D17-rescan-assigned", "C20", [(CACHE,
+  "\tc.rescan = shortage\n", "\t_ = shortage\n")], "revert of D17 (part): the flag never reaches the cache")
+m("C20-revert-D17-flag-never-set", "C20", [(CACHE,
+  "\t\t\tif errors.Is(err, syscall.EMFILE) || errors.Is(err, syscall.ENFILE) {\n\t\t\t\tshortage = true\n\t\t\t}\n", "")], "revert of D17 (part): no scan error counts as a shortage")
+m("C20-rescan-only-emfile", "C20", [(CACHE,
+  "\t\t\tif errors.Is(err, syscall.EMFILE) || errors.Is(err, syscall.ENFILE) {",
+  "\t\t\tif errors.Is(err, syscall.EMFILE) {")], "the system-wide descriptor limit (ENFILE) is not treated as a shortage")
+m("C20-rescan-any-error", "C11", [(CACHE,
+  "\tif force || (c.autoRefresh && (c.watch.update(c.dirErrors) || c.rescan)) {",
+  "\tif force || c.rescan || (c.autoRefresh && c.watch.update(c.dirErrors)) {")], "the rescan flag forces a scan in manual mode too (queries of a manual cache start scanning on their own)")
+m("C13-revert-D17-unreadable-dir-silent", "C13", [(DIRS,
+  "\t\t\t\t\tif err != nil {\n\t\t\t\t\t\t// the directory cannot be read: report it like any other failure\n\t\t\t\t\t\treturn scanFn(path, priority, nil, err)\n\t\t\t\t\t}\n", "")], "revert of D17 (part): a Spec directory that cannot be read is passed over silently")
 
 if __name__ == "__main__":
     sys.exit(1 if emit() else 0)
